@@ -301,13 +301,15 @@ def run_text(st, text, widths, origin, with_ir=True, depth=0):
         verdict, detail, out = spec_check(text, toks, tree, k, with_ir=(with_ir and i == 0))
         st.bump(st.verdicts, verdict)
         if verdict != "ok":
+            # A text may carry both known defects: the repaired text is checked again (depth 1),
+            # where the other predicate may route once more (depth 2 = both repairs applied).
             mm = has_minus_minus(toks)
             docs = inline_docs_with_trailing_blanks(toks)
             routed = False
             if mm and verdict in ("reparse-fail", "tokens-differ"):
                 # known finding only if it is the *only* problem: the repaired text must pass
                 rep = repair_minus_minus(text, toks)
-                if depth == 0 and run_text(st, rep, [k], origin + "+repaired", with_ir, depth + 1) is True:
+                if depth <= 1 and run_text(st, rep, [k], origin + "+repaired", with_ir, depth + 1) is True:
                     routed = True
                     st.bump(st.stats, "known_minus_minus")
                     k0 = chk.known_finding(F_MINUS)
@@ -317,7 +319,7 @@ def run_text(st, text, widths, origin, with_ir=True, depth=0):
                         report(st, text, k, verdict, detail, key=F_MINUS)
             elif docs and verdict == "not-idempotent":
                 rep = repair_inline_docs(text, toks)
-                if depth == 0 and run_text(st, rep, [k], origin + "+repaired", with_ir, depth + 1) is True:
+                if depth <= 1 and run_text(st, rep, [k], origin + "+repaired", with_ir, depth + 1) is True:
                     routed = True
                     st.bump(st.stats, "known_inline_doc")
                     if not chk.known_finding(F_DOC):
@@ -608,12 +610,23 @@ def real_sanity(formatted, original):
         return "ok"
     if s[0].startswith("BUG: Symbol "):
         return "differs " + s[0].split()[2]
+    if s[0].startswith("BUG: Token count differs"):
+        return "countdiffers"
     return "other"
+
+
+def sanity_op_name():
+    """The model has both variants of the self-check (as shipped; with the length comparison of
+    fixes/C11-sanity-check-length.patch).  Which one the code under test is, is observed on the
+    pinned probe of finding `sanity-check-ignores-length`."""
+    return "SANITYLEN" if real_sanity("-- doc\n-- extra\n", "-- doc\n") == "countdiffers" else "SANITY"
 
 
 def sanity_ops(st, r, pairs):
     """(formatted, original) text pairs -> model op + expected answer from the real function."""
     ops = []
+    opname = sanity_op_name()
+    st.stats["sanity_model_variant"] = opname
     for f, o in pairs:
         ft, e1 = tokenizer.tokenize(f, "")
         ot, e2 = tokenizer.tokenize(o, "")
@@ -622,9 +635,9 @@ def sanity_ops(st, r, pairs):
         want = real_sanity(f, o)
         if want == "indexerror":
             # the model says where; the Python exception does not
-            ops.append(("SANITY %s %s" % (tok_arg(ft), tok_arg(ot)), want, (f, o)))
+            ops.append(("%s %s %s" % (opname, tok_arg(ft), tok_arg(ot)), want, (f, o)))
         else:
-            ops.append(("SANITY %s %s" % (tok_arg(ft), tok_arg(ot)), want, (f, o)))
+            ops.append(("%s %s %s" % (opname, tok_arg(ft), tok_arg(ot)), want, (f, o)))
     return ops
 
 
